@@ -182,11 +182,16 @@ def relayout(x, k):
 
 def vary_seq(seq, k):
     """The same integer sequence handed over as another container type: list, tuple, NumPy
-    int64 array, list of NumPy integers, narrow NumPy integers (int8 list, int16 array) when the
-    values fit (None stays None)."""
+    int64 array, list of NumPy integers, narrow NumPy integers (int8 list, int16 array) and
+    unsigned ones (uint16 array, uint8 list) when the values fit (None stays None)."""
     if seq is None:
         return None
-    k = int(k) % 6
+    k = int(k) % 8
+    if k == 6 and all(0 <= int(v) <= 60000 for v in seq):
+        return np.asarray(seq, dtype=np.uint16)   # unsigned element types (header fields)
+    if k == 7 and all(0 <= int(v) <= 250 for v in seq):
+        return [np.uint8(v) for v in seq]
+    k = k % 6 if k < 6 else k % 4
     if k == 4 and all(-120 <= int(v) <= 120 for v in seq):
         return [np.int8(v) for v in seq]          # narrow element types (header fields)
     if k == 5 and all(-30000 <= int(v) <= 30000 for v in seq):
